@@ -3586,6 +3586,18 @@ func (t *Topic) notifySubChange(uid, actor types.Uid, isChan bool,
 			} else if t.cat == types.TopicCatMe {
 				// User is visible online now, notify subscribers.
 				t.presUsersOfInterest("on+en", t.userAgent)
+			} else if t.cat == types.TopicCatP2P {
+				// Muting told user1's 'me' to discard updates from user2 ("off+dis"), undo it:
+				// tell user1's 'me' to accept updates from user2 again.
+				t.presSingleUserOffline(uid, newWant&newGiven, "?none+en", nilPresParams, "", false)
+				// Ask user2's 'me' for the current status, it replies to user1's 'me'.
+				uid2 := t.p2pOtherUser(uid)
+				pud2 := t.perUser[uid2]
+				mode2 := pud2.modeGiven & pud2.modeWant
+				if pud2.deleted {
+					mode2 = types.ModeInvalid
+				}
+				t.presSingleUserOffline(uid2, mode2, "?unkn", nilPresParams, "", false)
 			}
 		}
 
